@@ -1064,3 +1064,105 @@ func (z *Sym) intTableLoad(u *ssa.UnOp) (lin.Form, bool) {
 	}
 	return *found, true
 }
+
+// ---------------------------------------------------------------------------
+// 4. single-assignment cells
+//
+// A parameter or local that a closure captures lives in memory (go/ssa spills
+// it: t0 = new []byte (data); *t0 = data) and every use becomes a load of the
+// cell. When the cell is stored exactly once — by its owner, before anything
+// else, outside every loop — and neither the owner nor the capturing closures
+// store to it again or let its address escape, each load denotes the stored
+// value.
+
+func singleStoreCell(al *ssa.Alloc) (*ssa.Store, bool) {
+	if al.Referrers() == nil {
+		return nil, false
+	}
+	var st *ssa.Store
+	for _, r := range *al.Referrers() {
+		switch x := r.(type) {
+		case *ssa.DebugRef:
+		case *ssa.UnOp:
+			if x.Op != token.MUL {
+				return nil, false
+			}
+		case *ssa.Store:
+			if x.Addr != ssa.Value(al) || st != nil {
+				return nil, false
+			}
+			st = x
+		case *ssa.MakeClosure:
+			cf, _ := x.Fn.(*ssa.Function)
+			if cf == nil {
+				return nil, false
+			}
+			for i, b := range x.Bindings {
+				if b != ssa.Value(al) {
+					continue
+				}
+				if i >= len(cf.FreeVars) || cf.FreeVars[i].Referrers() == nil {
+					return nil, false
+				}
+				for _, rr := range *cf.FreeVars[i].Referrers() {
+					switch y := rr.(type) {
+					case *ssa.DebugRef:
+					case *ssa.UnOp:
+						if y.Op != token.MUL {
+							return nil, false
+						}
+					default:
+						return nil, false // stored to, re-captured, passed on
+					}
+				}
+			}
+		default:
+			return nil, false
+		}
+	}
+	if st == nil || inCycle(st.Block()) {
+		return nil, false
+	}
+	return st, true
+}
+
+// cellLoadValue: v loads a single-assignment cell (directly in the owner, or
+// through the free variable of a closure entered in activation fr).
+func cellLoadValue(v ssa.Value, fr *Frame) (ssa.Value, *Frame, bool) {
+	u, ok := v.(*ssa.UnOp)
+	if !ok || u.Op != token.MUL {
+		return nil, nil, false
+	}
+	switch a := u.X.(type) {
+	case *ssa.Alloc:
+		st, ok := singleStoreCell(a)
+		if !ok || !instrBefore(st, u) {
+			return nil, nil, false
+		}
+		return st.Val, scopeFrame(st.Val, fr), true
+	case *ssa.FreeVar:
+		cf := funcFrame(fr)
+		if cf == nil || cf.Call == nil || cf.Callee != a.Parent() {
+			return nil, nil, false
+		}
+		mc, f := closureOf(cf.Call)
+		if mc == nil || f != cf.Callee {
+			return nil, nil, false
+		}
+		for i, q := range f.FreeVars {
+			if q != a || i >= len(mc.Bindings) {
+				continue
+			}
+			al, isAl := mc.Bindings[i].(*ssa.Alloc)
+			if !isAl {
+				return nil, nil, false
+			}
+			st, ok := singleStoreCell(al)
+			if !ok || !instrBefore(st, mc) {
+				return nil, nil, false
+			}
+			return st.Val, scopeFrame(st.Val, cf.Parent), true
+		}
+	}
+	return nil, nil, false
+}
